@@ -175,10 +175,71 @@ def run(ctx):
                           f"class G whose __init__ raises ValueError for a negative argument, hash function {hf}: {why}",
                           replay="from edgegraph.structure.singleton import *\nM = semi_singleton_metaclass()\nclass G(metaclass=M):\n    def __init__(self, x):\n        if x < 0: raise ValueError\n        self.x = x\n"
                                  "for _ in range(2):\n    try: G(-1)\n    except ValueError: print('raised')\nprint(check_semi_singleton_entry_exists(G, -1), list(get_all_semi_singleton_instances(G)))")
+    # ---- an instance constructed while its class is still being created (a base class registering a first instance of every
+    # subclass from __init_subclass__): it is the live instance for its key from then on
+    for hf in ("None", "first"):
+        try:
+            why = boot_instance(h, hf)
+        except Unknown as u:
+            res.ob(False)
+            res.undecide(f"instance constructed from __init_subclass__ hashfunc={hf}: {u}")
+            continue
+        n += 1
+        res.ob(why is None, sig=("init-subclass", hf))
+        if why:
+            res.violation("MAP-STEP", MOD + ".semi_singleton_metaclass.<locals>._SemiSingleton.__call__", f"hashfunc={hf},op=call,instance-constructed-during-class-creation",
+                          f"base class whose __init_subclass__ constructs cls('boot') for every new subclass, hash function {hf}: {why}",
+                          replay="from edgegraph.structure.singleton import *\nM = semi_singleton_metaclass()\nclass Base(metaclass=M):\n    boots = []\n    def __init_subclass__(cls):\n        Base.boots.append(cls('boot'))\n"
+                                 "    def __init__(self, tag):\n        print('init', type(self).__name__, tag)\nclass Sub(Base): pass\nprint(Sub('boot') is Base.boots[0], check_semi_singleton_entry_exists(Sub, 'boot'), list(get_all_semi_singleton_instances(Sub)))")
     res.rule("MAP-STEP", n)
     common.vacuity(res, "MAP-STEP", 1000)
     res.analysed = common.analysed(ctx, [MOD + "." + f for f in ("semi_singleton_metaclass", "add_mapping", "drop_semi_singleton_mapping", "check_semi_singleton_entry_exists", "get_all_semi_singleton_instances", "clear_semi_singleton")])
     res.explanation = "Each operation maps every reachable state of the per-class key->instance maps to the model's state and returns what the model returns; induction covers every history."
+
+
+BOOT_SRC = '''
+from edgegraph.structure.singleton import (semi_singleton_metaclass, add_mapping, drop_semi_singleton_mapping,
+                                           check_semi_singleton_entry_exists, get_all_semi_singleton_instances, clear_semi_singleton)
+def first(args, kwargs):
+    return ("k", args, tuple(sorted(kwargs.items())))
+M = semi_singleton_metaclass(@HF@)
+BOOTS = []
+INITS = []
+class Base(metaclass=M):
+    def __init_subclass__(cls):
+        BOOTS.append(cls("boot"))
+    def __init__(self, tag):
+        INITS.append((type(self).__name__, tag))
+class Sub(Base):
+    pass
+class Sub2(Base):
+    pass
+'''
+
+
+def boot_instance(h, hf):
+    h.reset()
+    m = h.w.load_text("verif_c17_boot", BOOT_SRC.replace("@HF@", hf))
+    h.w.mods.pop("verif_c17_boot", None)
+    g = m.globals
+    h.settle()
+    boots, inits = g["BOOTS"].items, g["INITS"].items
+    if len(boots) != 2 or len(inits) != 2:
+        return f"defining Sub and Sub2 constructed {len(boots)} instance(s) with {len(inits)} __init__ run(s); one each is expected"
+    for i, cn in enumerate(("Sub", "Sub2")):
+        c = h.call(g["check_semi_singleton_entry_exists"], g[cn], "boot")
+        if c.kind != "return" or not (c.value is True or c.value is boots[i]):
+            return f"check({cn}, 'boot') reports {c!r} although {cn}('boot') was constructed while the class was being created and is alive"
+        o = h.call(g[cn], "boot")
+        if o.kind != "return" or o.value is not boots[i]:
+            return f"{cn}('boot') gives {o!r} instead of the live instance constructed for that key during class creation"
+        if len(g["INITS"].items) != 2:
+            return f"{cn}('boot') ran __init__ again for a live key"
+        ga = h.call(g["get_all_semi_singleton_instances"], g[cn])
+        items = list(ga.value.items) if ga.kind == "return" and isinstance(ga.value, Seq) else None
+        if items is None or len(items) != 1 or items[0] is not boots[i]:
+            return f"get_all({cn}) lists {ga!r}; exactly the one live instance is expected"
+    return None
 
 
 def failing_ctor(h, hf):
